@@ -4,7 +4,7 @@
   yash-fnmatch/src/ast/regex.rs on every run, so editing either constant re-checks (and can break)
   `meta_subset`, `escape_roundtrip` and `toRegex_correct`.
 -/
-import YashModel.Fnmatch.DefinedLemmas
+import YashModel.Fnmatch.CaseLemmas
 
 namespace YashModel.Fnmatch
 open YashModel.Generated.FnmatchTables
@@ -209,6 +209,25 @@ theorem case_first_match (pats : List (List PatternChar)) (subj : List Char) :
     caseFirst pats subj = pats.findIdx? (fun p => compilesB p && globMatch (parseAtoms p) subj) ∧
     ((∀ p ∈ pats, compilesB p = true) → caseFirst pats subj = specCase (pats.map parseAtoms) subj) :=
   Proofs.case_first_match pats subj
+
+/-- ★ `case` with `|`-alternatives (`case.rs matches` + the item loop): the item selected is the FIRST item
+    having an alternative that compiles and denotes the subject — an alternative that does not compile is
+    skipped and the remaining alternatives of the same item still count — and `none` if there is no such
+    item; the first body `case` executes is that item's; and when every alternative is inside the defined
+    notation this is the Spec's selection. -/
+theorem caseSelect_first (items : List (List (List PatternChar))) (subj : List Char) :
+    caseSelect items subj =
+      items.findIdx? (fun alts => alts.any (fun p => compilesB p && globMatch (parseAtoms p) subj)) ∧
+    (∀ its : List (List (List PatternChar) × CaseCont),
+      (caseExec its subj).head? = caseSelect (its.map Prod.fst) subj) ∧
+    ((∀ alts ∈ items, ∀ p ∈ alts, astDefined (parseAtoms p) = true) →
+      caseSelect items subj = specCaseSelect (items.map (fun alts => alts.map parseAtoms)) subj) :=
+  ⟨Proofs.caseSelect_first items subj, fun its => Proofs.caseExecGo_head subj its 0,
+   Proofs.caseSelect_spec items subj⟩
+
+/-- non-vacuity of the third clause: quoted patterns are inside the defined notation -/
+example : astDefined (parseAtoms (List.map PatternChar.literal ['[', 'b', '-', 'a', ']'])) = true := by
+  rw [Proofs.parseAtoms_literals]; decide
 
 /-- non-vacuity of the second clause: literal patterns always compile -/
 example : compilesB (List.map PatternChar.literal ['a', '*']) = true := by
